@@ -59,7 +59,7 @@ const (
 
 	initialMessageID = 101
 
-	sessionID = `(?i)<session-id>(\d+)</session-id>`
+	sessionID = `(?i)<(?:\w+:)?session-id>(\d+)</(?:\w+:)?session-id>`
 )
 
 type netconfPatterns struct {
